@@ -3,6 +3,7 @@ CONSTANTS NP = 3
           NF = 2
           NA = 2
           NC = 1
+          NS = 4
           Light = TRUE
 INIT Init
 NEXT Eval
